@@ -57,7 +57,7 @@ class _TrioIdleCallbackInstrument(trio.abc.Instrument):
 
     def before_io_wait(self, timeout: float) -> None:
         if timeout > 0:
-            for idle_callback in self.idle_callbacks.values():
+            for idle_callback in list(self.idle_callbacks.values()):
                 idle_callback()
 
 
